@@ -113,7 +113,7 @@ def run_monitor(ctx, monitor_name, label, function, timeout=1800):
 def u_fq12_inv_bounded(ctx):
     run_monitor(ctx, "fq12_inv", "x*inv(x)=1 or x=0", "py_ecc.fields.FQ12.inv")
     # keep the unit visible in the obligation inventory without counting the monitor as a proof
-    ctx.note("FQ12.inv is a BOUNDED stand-in (12-degree sloppy Euclid; 2^13 zero-test patterns): not counted in discharged")
+    ctx.note("FQ12.inv run-time monitor: an extra cross-check of the loop-contract proof (units *.FQP.inv.d12.*); bounded, not counted in discharged")
 
 
 UNITS["fields.FQ12.inv.bounded"] = Unit("fields.FQ12.inv.bounded", u_fq12_inv_bounded, [], kind="bounded",
